@@ -3,7 +3,7 @@
 Gen/OrderFree.lean.
 
 * `Gen.orderFreeFns` : (key, normalised body) of whole functions — include_directive,
-  add_xact, add_post, amount_t::parse, finalize, add_balancing_post, sort_posts,
+  add_xact, add_post, amount_t::parse, amount_t::operator+= / -=, finalize, add_balancing_post, sort_posts,
   sorted_amounts, map_sorted_amounts, balance += amount, assign_glob, mask assignment,
   add_flags — and of a few statements inside parse_post (the parse flags of costs and
   assertions, the total-cost computation).  Props/C08.lean compares them with the
@@ -22,7 +22,9 @@ FNS = [
     ("textual.cc", [("textual.cc:include_directive", r"void\s+instance_t::include_directive\(char \* line\)\s*\{")]),
     ("journal.cc", [("journal.cc:add_xact", r"bool\s+journal_t::add_xact\(xact_t \* xact\)\s*\{")]),
     ("account.cc", [("account.cc:add_post", r"void\s+account_t::add_post\(post_t \* post\)\s*\{")]),
-    ("amount.cc", [("amount.cc:parse", r"bool\s+amount_t::parse\(std::istream& in, const parse_flags_t& flags\)\s*\{")]),
+    ("amount.cc", [("amount.cc:parse", r"bool\s+amount_t::parse\(std::istream& in, const parse_flags_t& flags\)\s*\{"),
+                   ("amount.cc:operator+=", r"amount_t&\s+amount_t::operator\+=\(const amount_t& amt\)\s*\{"),
+                   ("amount.cc:operator-=", r"amount_t&\s+amount_t::operator-=\(const amount_t& amt\)\s*\{")]),
     ("xact.cc", [("xact.cc:finalize", r"bool\s+xact_base_t::finalize\(\)\s*\{"),
                  ("xact.cc:add_balancing_post", r"void operator\(\)\(const amount_t& amount\)\s*\{")]),
     ("balance.cc", [("balance.cc:operator+=(amount)", r"balance_t&\s+balance_t::operator\+=\(const amount_t& amt\)\s*\{"),
